@@ -217,7 +217,18 @@ def consensus(
     super_reads = [[], []]
     components = dict()
 
+    # Variants that are already phased in the input keep their phasing, whether or not
+    # tagged reads cover them
+    for pos, phase in phased.items():
+        if phase is None or phase.block_id is None or len(phase.phase) != 2:
+            continue
+        components[pos] = phase.block_id - 1
+        super_reads[0].append(Variant(pos, allele=phase.phase[0], quality=0))
+        super_reads[1].append(Variant(pos, allele=phase.phase[1], quality=0))
+
     for pos, vote in votes.items():
+        if pos in components:
+            continue
         best_allele, phase_set, fraction, score = best_candidate(vote)
         components[pos] = phase_set
         if phased[pos] is None:
